@@ -5,16 +5,16 @@ NOTES = ("Every check re-compiles coq/theories/Properties/<id>.v (theorems over 
 NOT_APPLICABLE = {}
 CLAIMS = {
     "C07": {
-        "text": "Theorems over the Fetch model for every env and canon (20, closed under the global context) on D07 (distinct dot-free entry names; nested multiples and further master "
+        "text": "Theorems over the Fetch model for every env and canon (24, closed under the global context) on D07 (distinct dot-free entry names; nested multiples and further master "
                 "occurrences allowed; no deprecated; stable choices; $-free) under the single oracle hypothesis H_default_canonical (for each .multiple entry k, canon of k fetched against "
-                "itself = canon the master reports for k): re-fetching a result as an object is a fixed point; a master copy, the master object itself (Python's identity skip modelled), or "
-                "any master-like first source change nothing (equality of outcomes incl. errors); fetching nothing = fetching the master; any history of such cycles leaves W unchanged; "
+                "itself = canon the master reports for k): re-fetching a result as an object is a fixed point; a master copy, the master object itself (Python's identity skip modelled), "
+                "any master-like first source, or the master's own defaults M.fetch() as first source (C07_defaults_first, no well-formedness needed) change nothing (equality of outcomes incl. errors); fetching nothing = fetching the master; any history of such cycles leaves W unchanged; "
                 "canon-free versions for masters without multiples. Refutations by witness exactly where the library fails: F7a (H_default_canonical false on nested non-canonical "
                 "defaults), F7d (single-alternative choice). The TEXT form is proved too (C07_refetch_text, composing C07_refetch, the print/parse round trip of C01 and a "
                 "line-insensitive strengthening of C05's observational lemma): fetching parse(print W) gives W up to the line numbers of value words and with identical printed forms, "
                 "for masters without hidden templates and canon blind to word lines; for PARSED masters and sources (no .multiple/disabled object under a dotted prefix, printable choice "
                 "alternatives) printing, parsing and re-fetching are proved to succeed (C07_refetch_text_parsed). Two obscure text-form counterexamples found by the proof are open findings. "
-                "PARTIAL: 'defaults as first source' is decided by the stream on every run.",
+                "PARTIAL: the defaults as re-parsed TEXT in front of other sources are decided by the stream on every run.",
         "note": "Trusted as C04 (Fetch model, canon oracle recorded per fetch call, identity probes for nested multiples). in_domain evaluates D07 incl. H_default_canonical through the "
                 "library's own extract_format on every case.",
     },
